@@ -21,6 +21,7 @@ import KafkaVerif.Lemmas.GroupCloseProgress
 import KafkaVerif.Lemmas.FetcherDeadlines
 import KafkaVerif.Lemmas.GroupDeadlines
 import KafkaVerif.Lemmas.ReaderCloseSilent
+import KafkaVerif.Lemmas.TransportDeadlines
 
 namespace KV.C09
 open KV.WriterClose
@@ -979,5 +980,32 @@ theorem reader_system_close_progress_for_source (c : Group.Cfg) (s : ReaderClose
   have h : Gen.CloseFacts.coordinatorCallsHaveDeadline = true := by decide
   rw [h]
   exact GroupClose.system_progress_silent sourceNet (by decide) (by decide) c s hi hm
+
+end KV.C09
+
+/-! ## A Transport connection whose exchange is never answered (Model/TransportDeadlines.lean; round 7, C09-m10) -/
+namespace KV.C09
+open KV.TransportConn
+
+/-- **transport_pool_request_reclaimed_for_source** — a connection serving one of the requests the pool queues for itself
+(the background metadata refresh of `connPool.discover`) against a broker that never answers it: the exchange fails at
+the request's deadline and the connection exits (goroutine gone, socket closed).  `bounded` is the regenerated fact
+`poolOwnRequestsAreBounded` ∧ `connRoundTripArmsDeadlineFromContext` (the request carries the MetadataTTL-bounded context
+and `(*conn).roundTrip` arms the socket deadline from it), so C09-m10 breaks this theorem. -/
+theorem transport_pool_request_reclaimed_for_source (f : TFacts) (s : TransportConn.State) (c : Nat)
+    (hs : get s c = some .serving) :
+    ∃ s1 s2, stepSilentT f (fun _ => Gen.CloseFacts.poolOwnRequestsAreBounded && Gen.CloseFacts.connRoundTripArmsDeadlineFromContext)
+               s (.done c false false) = some s1 ∧
+      stepSilentT f (fun _ => Gen.CloseFacts.poolOwnRequestsAreBounded && Gen.CloseFacts.connRoundTripArmsDeadlineFromContext)
+               s1 (.exit c) = some s2 ∧ get s2 c = some .exited :=
+  serving_bounded_exits f _ s c hs (by decide)
+
+/-- **transport_unbounded_request_stranded** — the converse (the leak of C09-m10, and of any round trip whose context
+has no deadline): the connection stays `serving` under every event possible against a silent broker — neither the
+caller's cancellation nor `CloseIdleConnections` / `Writer.Close` reclaims it. -/
+theorem transport_unbounded_request_stranded (f : TFacts) (bounded : Nat → Bool) (s s' : TransportConn.State) (c : Nat)
+    (e : TransportConn.Ev) (hs : get s c = some .serving) (hb : bounded c = false)
+    (h : stepSilentT f bounded s e = some s') : get s' c = some .serving :=
+  serving_unbounded_stranded f bounded s s' c e hs hb h
 
 end KV.C09
